@@ -285,3 +285,496 @@ def make_encoder(inst: Any, enc: int):
 
 def rows_of(y: Any) -> list[list[int]]:
     return [[int(v) for v in row] for row in y]
+
+
+# ============================================================================
+# additions for C02 / C03 / C04 / C14 (existing strategies above are unchanged)
+# ============================================================================
+
+def dtype_limits(inst_case: dict) -> tuple[int, int]:
+    """(lo, hi) of the storage type that the instance (and its packings) use."""
+    from vf import oracle_bp
+    name = oracle_bp.expected_dtype(inst_case["W"], inst_case["H"],
+                                    inst_case["items"])
+    bits = int(name[3:])
+    return -(2 ** (bits - 1)), 2 ** (bits - 1) - 1
+
+
+def own_bin_rows(inst_case: dict) -> list[list[int]]:
+    """The worst-case feasible layout: every item alone in its own bin."""
+    W, H = inst_case["W"], inst_case["H"]
+    rows: list[list[int]] = []
+    for i, (w, h, m) in enumerate(inst_case["items"]):
+        if w > W or h > H:
+            w, h = h, w
+        for _ in range(m):
+            rows.append([i + 1, len(rows) + 1, 0, 0, w, h])
+    return rows
+
+
+# -- coordinate-rich instances for the bottom-left model (C14) ----------------
+
+@st.composite
+def instances_rich(draw: Any, max_items: int = 14, max_dim: int = 60) -> dict:
+    """Bins 5..max_dim, 3..max_items items drawn from small palettes of widths
+    and heights, so that equal heights (support / blocker situations of the
+    bottom-left rule) are frequent."""
+    W = draw(st.integers(5, max_dim))
+    H = draw(st.integers(5, max_dim))
+    pal_w = draw(st.lists(st.integers(1, max(1, W // 2)), min_size=1,
+                          max_size=4))
+    pal_h = draw(st.lists(st.integers(1, max(1, H // 2)), min_size=1,
+                          max_size=3))
+    n_types = draw(st.integers(2, 6))
+    items: list[list[int]] = []
+    total = 0
+    for t in range(n_types):
+        w = draw(st.sampled_from(pal_w)) if draw(st.integers(0, 4)) else \
+            draw(st.integers(1, W))
+        h = draw(st.sampled_from(pal_h)) if draw(st.integers(0, 4)) else \
+            draw(st.integers(1, H))
+        room = max_items - total - (n_types - t - 1)
+        mult = draw(st.integers(1, max(1, min(4, room))))
+        items.append([w, h, mult])
+        total += mult
+    return {"cls": "rich", "W": W, "H": H, "items": items}
+
+
+@st.composite
+def decode_case(draw: Any, rich_share: int = 5, **kw: Any) -> dict:
+    """Like :func:`instance_and_perm`; ``rich_share`` of 10 instances come
+    from :func:`instances_rich`, the others from :func:`instances`."""
+    if draw(st.integers(0, 9)) < rich_share:
+        inst = draw(instances_rich(max_items=kw.get("max_items", 14)))
+    else:
+        inst = draw(instances(**kw))
+    return {"inst": inst, "x": draw(signed_perm(inst)),
+            "enc": draw(st.sampled_from([1, 2])),
+            "garbage": draw(st.integers(-3, 100))}
+
+
+# -- feasible packings of both kinds (C02, C04) -------------------------------
+
+def _relabel(draw: Any, rows: list[list[int]]) -> list[list[int]]:
+    """Rename the bins by a drawn permutation of 1..k."""
+    ids = sorted({r[1] for r in rows})
+    new = list(draw(st.permutations(ids))) if len(ids) <= 40 else ids[::-1]
+    m = dict(zip(ids, new))
+    return [[r[0], m[r[1]], *r[2:]] for r in rows]
+
+
+def _shuffle_rows(draw: Any, rows: list[list[int]]) -> list[list[int]]:
+    if len(rows) <= 40:
+        return [list(r) for r in draw(st.permutations(rows))]
+    idx = _cheap_shuffle(draw, list(range(len(rows))))
+    return [list(rows[i]) for i in idx]
+
+
+def _sparse_last(draw: Any, rows: list[list[int]]) -> list[list[int]]:
+    """Move one item out of a bin holding >= 2 items into a new last bin (to
+    that bin's bottom-left corner): k+1 bins, the last one sparse."""
+    per: dict[int, int] = {}
+    for r in rows:
+        per[r[1]] = per.get(r[1], 0) + 1
+    cand = [i for i, r in enumerate(rows) if per[r[1]] >= 2]
+    if not cand:
+        return [list(r) for r in rows]
+    i = draw(st.sampled_from(cand))
+    k = max(per)
+    res = [list(r) for r in rows]
+    iid, _b, x0, y0, x1, y1 = res[i]
+    res[i] = [iid, k + 1, 0, 0, x1 - x0, y1 - y0]
+    return res
+
+
+@st.composite
+def layout_variant(draw: Any, rows: list[list[int]]) -> dict:
+    """A feasible re-arrangement of a feasible layout that no decoder yields:
+    rows shuffled, bins renamed, optionally a sparse extra last bin."""
+    how = []
+    res = [list(r) for r in rows]
+    if draw(st.booleans()):
+        res = _sparse_last(draw, res)
+        how.append("sparse_last")
+    if draw(st.integers(0, 3)) > 0:
+        res = _relabel(draw, res)
+        how.append("relabel")
+    if draw(st.integers(0, 3)) > 0:
+        res = _shuffle_rows(draw, res)
+        how.append("shuffle")
+    return {"kind": "rows", "how": "+".join(how) or "copy", "rows": res}
+
+
+@st.composite
+def objective_case_decoded(draw: Any, **kw: Any) -> dict:
+    """C02: one instance of any size class with several feasible packings:
+    decodings by both encodings, re-arranged model layouts, one item per
+    bin."""
+    from vf import oracle_bp
+    inst = draw(instances(**kw))
+    x1 = draw(signed_perm(inst))
+    x2 = draw(signed_perm(inst))
+    packs: list[dict] = [
+        {"kind": "decode", "enc": draw(st.sampled_from([1, 2])), "x": x1},
+        {"kind": "decode", "enc": draw(st.sampled_from([1, 2])), "x": x2}]
+    base, _k, _s = oracle_bp.model_decode(
+        inst["W"], inst["H"], inst["items"], x1, draw(st.sampled_from([1, 2])))
+    packs.append(draw(layout_variant(base)))
+    packs.append({"kind": "rows", "how": "own_bin",
+                  "rows": own_bin_rows(inst)})
+    order = draw(st.permutations(range(len(packs))))
+    return {"inst": inst, "packs": [packs[i] for i in order]}
+
+
+@st.composite
+def objective_case_guillotine(draw: Any, **kw: Any) -> dict:
+    """C02: a guillotine instance with its known k-bin layout, re-arranged
+    variants of it, decodings and the one-item-per-bin layout."""
+    g = draw(guillotine(**kw))
+    inst = {"cls": "guillotine", "W": g["W"], "H": g["H"],
+            "items": g["items"]}
+    packs: list[dict] = [
+        {"kind": "rows", "how": "guillotine", "rows": g["rows"]},
+        draw(layout_variant(g["rows"])),
+        {"kind": "decode", "enc": draw(st.sampled_from([1, 2])),
+         "x": draw(signed_perm(inst))},
+        {"kind": "rows", "how": "own_bin", "rows": own_bin_rows(inst)}]
+    order = draw(st.permutations(range(len(packs))))
+    return {"inst": inst, "k_known": g["k"],
+            "packs": [packs[i] for i in order]}
+
+
+# -- guillotine instances with shape classes for the lower bound (C03) --------
+
+SHAPES_C03 = ("any", "square", "thin_wide", "thin_tall", "flat", "big")
+
+
+@st.composite
+def guillotine_shaped(draw: Any, max_bins: int = 5, max_dim: int = 40,
+                      big_dim: int = 100) -> dict:
+    """Like :func:`guillotine` but with drawn bin shape classes (squares,
+    thin strips in both orientations, non-square in both orientations), a
+    drawn share of cuts next to the middle of the piece (items just above /
+    below half the bin), a drawn share of square pieces, and drawn data for
+    the metamorphic variants (item rotations, row order, splitting of
+    multiplicities)."""
+    shape = draw(st.sampled_from(SHAPES_C03))
+    if shape == "square":
+        W = H = draw(st.integers(1, max_dim))
+    elif shape == "thin_wide":
+        W, H = draw(st.integers(4, big_dim)), draw(st.integers(1, 3))
+    elif shape == "thin_tall":
+        W, H = draw(st.integers(1, 3)), draw(st.integers(4, big_dim))
+    elif shape == "flat":
+        a = draw(st.integers(2, max_dim))
+        b = draw(st.integers(1, max(1, a // 2)))
+        W, H = (a, b) if draw(st.booleans()) else (b, a)
+    elif shape == "big":
+        W, H = draw(st.integers(20, big_dim)), draw(st.integers(20, big_dim))
+    else:
+        W, H = draw(st.integers(1, max_dim)), draw(st.integers(1, max_dim))
+    k = draw(st.integers(1, max_bins))
+    depth = draw(st.integers(0, 4))
+    p_stop = draw(st.integers(0, 4))
+    p_half = draw(st.sampled_from([0, 0, 3, 7, 10]))
+    slack = draw(st.sampled_from([0, 1, 2, 3, 5]))  # tenths of pieces touched
+    small = draw(st.booleans())  # shrink by 1..2 only (items stay > half)
+    placed: list[tuple[int, int, int, int, int]] = []
+    perfect = True
+
+    def cut(rect: tuple[int, int, int, int], d: int,
+            out: list[tuple[int, int, int, int]]) -> None:
+        x0, y0, x1, y1 = rect
+        w, h = x1 - x0, y1 - y0
+        can_v, can_h = w >= 2, h >= 2
+        if d <= 0 or not (can_v or can_h) or \
+                draw(st.integers(0, 9)) < p_stop:
+            out.append(rect)
+            return
+        vertical = can_v and (not can_h or draw(st.booleans()))
+        size = w if vertical else h
+        if draw(st.integers(0, 9)) < p_half:
+            c = min(size - 1, max(1, size // 2 + draw(st.integers(-1, 1))))
+        else:
+            c = draw(st.integers(1, size - 1))
+        if vertical:
+            cut((x0, y0, x0 + c, y1), d - 1, out)
+            cut((x0 + c, y0, x1, y1), d - 1, out)
+        else:
+            cut((x0, y0, x1, y0 + c), d - 1, out)
+            cut((x0, y0 + c, x1, y1), d - 1, out)
+
+    for b in range(1, k + 1):
+        rects: list[tuple[int, int, int, int]] = []
+        cut((0, 0, W, H), depth, rects)
+        keep: list[tuple[int, int, int, int]] = []
+        for r in rects:
+            x0, y0, x1, y1 = r
+            if draw(st.integers(0, 9)) < slack:
+                mode = draw(st.integers(0, 2))
+                if mode == 0 and (keep or r is not rects[-1]):
+                    perfect = False
+                    continue
+                if mode == 1 and x1 - x0 >= 2:
+                    x1 -= draw(st.integers(
+                        1, min(2, x1 - x0 - 1) if small else x1 - x0 - 1))
+                    perfect = False
+                elif mode == 2 and y1 - y0 >= 2:
+                    y1 -= draw(st.integers(
+                        1, min(2, y1 - y0 - 1) if small else y1 - y0 - 1))
+                    perfect = False
+            keep.append((x0, y0, x1, y1))
+        if not keep:
+            keep.append(rects[0])
+        placed.extend((b, *r) for r in keep)
+    types: list[list[int]] = []
+    index: dict[tuple[int, int], int] = {}
+    rows: list[list[int]] = []
+    for (b, x0, y0, x1, y1) in placed:
+        w, h = x1 - x0, y1 - y0
+        key = (w, h) if w <= h else (h, w)
+        tid = index.get(key)
+        if tid is None:
+            a, c = (w, h) if draw(st.booleans()) else (h, w)
+            types.append([a, c, 1])
+            tid = len(types)
+            index[key] = tid
+        else:
+            types[tid - 1][2] += 1
+        rows.append([tid, b, x0, y0, x1, y1])
+    nt = len(types)
+    meta = {
+        "rot": draw(st.lists(st.booleans(), min_size=nt, max_size=nt)),
+        "order": list(draw(st.permutations(range(nt)))) if nt <= 40
+        else list(range(nt))[::-1],
+        "split": draw(st.lists(st.booleans(), min_size=nt, max_size=nt)),
+    }
+    return {"shape": shape, "W": W, "H": H, "k": k, "items": types,
+            "rows": rows, "perfect": perfect, "meta": meta}
+
+
+# -- corruption catalogue for the validator (C04) -----------------------------
+
+MUTATIONS = (
+    "id_other", "id_invalid", "swap_ids", "shift", "resize_one",
+    "resize_both", "wrong_partner", "outside", "overlap", "to_other_bin",
+    "to_new_bin", "bin_nonpositive", "bin_huge", "bin_gap", "n_bins",
+    "n_bins_type", "dtype", "shape", "foreign", "plain", "swap_rows",
+    "turn_in_place")
+
+
+def _mutate(draw: Any, inst: dict, st8: dict, kind: str) -> None:
+    """Apply one corruption of the catalogue to ``st8`` (in place).
+
+    ``st8`` = {"rows", "n_bins", "dtype", "foreign", "plain"}. All values
+    written stay inside the storage type of the instance (``lo..hi``), so the
+    corrupted matrix is representable as a packing array. Nothing here decides
+    whether the result is infeasible - the oracle does."""
+    W, H, items = inst["W"], inst["H"], inst["items"]
+    rows = st8["rows"]
+    lo, hi = dtype_limits(inst)
+
+    def clamp(v: int) -> int:
+        return max(lo, min(hi, v))
+
+    proper = isinstance(rows, list) and rows and all(
+        isinstance(r, list) and len(r) == 6 for r in rows)
+    if not proper:  # after a shape corruption only container-level changes
+        if kind not in ("n_bins", "n_bins_type", "dtype", "foreign", "plain"):
+            return
+    n = len(rows) if proper else 0
+    i = draw(st.integers(0, n - 1)) if n else 0
+    k = max((r[1] for r in rows), default=1) if proper else 1
+    if kind == "id_other":
+        if len(items) > 1:
+            other = draw(st.integers(1, len(items) - 1))
+            rows[i][0] = (rows[i][0] - 1 + other) % len(items) + 1
+    elif kind == "id_invalid":
+        rows[i][0] = clamp(draw(st.sampled_from(
+            [0, -1, len(items) + 1, len(items) + 2, hi, lo, -rows[i][0]])))
+    elif kind == "swap_ids":
+        j = draw(st.integers(0, n - 1))
+        rows[i][0], rows[j][0] = rows[j][0], rows[i][0]
+    elif kind == "shift":
+        dx = draw(st.integers(-3, 3))
+        dy = draw(st.integers(-3, 3))
+        if draw(st.integers(0, 5)) == 0:
+            dx = draw(st.sampled_from([-W, W, -1, 1]))
+        r = rows[i]
+        rows[i] = [r[0], r[1], clamp(r[2] + dx), clamp(r[3] + dy),
+                   clamp(r[4] + dx), clamp(r[5] + dy)]
+    elif kind == "resize_one":
+        col = draw(st.sampled_from([2, 3, 4, 5]))
+        d = draw(st.sampled_from([-3, -2, -1, 1, 2, 3]))
+        if draw(st.integers(0, 3)) == 0:  # collapse to zero / negative size
+            r = rows[i]
+            d = (r[4] - r[2]) * (1 if col == 2 else -1) if col in (2, 4) \
+                else (r[5] - r[3]) * (1 if col == 3 else -1)
+            d += draw(st.sampled_from([0, 0, 1, -1]))
+        rows[i][col] = clamp(rows[i][col] + d)
+    elif kind == "resize_both":
+        d = draw(st.sampled_from([-2, -1, 1, 2]))
+        e = draw(st.sampled_from([-2, -1, 1, 2]))
+        rows[i][4] = clamp(rows[i][4] + d)
+        rows[i][5] = clamp(rows[i][5] + e)
+    elif kind == "wrong_partner":
+        # one side from this item, the other side from another item type
+        j = draw(st.integers(0, len(items) - 1))
+        own = items[rows[i][0] - 1] if 1 <= rows[i][0] <= len(items) \
+            else items[0]
+        a = draw(st.sampled_from([own[0], own[1]]))
+        b = draw(st.sampled_from([items[j][0], items[j][1]]))
+        if draw(st.booleans()):
+            a, b = b, a
+        rows[i][4] = clamp(rows[i][2] + a)
+        rows[i][5] = clamp(rows[i][3] + b)
+    elif kind == "outside":
+        r = rows[i]
+        w, h = r[4] - r[2], r[5] - r[3]
+        side = draw(st.integers(0, 3))
+        off = draw(st.sampled_from([1, 1, 2, w, h]))
+        if side == 0:
+            x0 = -off
+            rows[i] = [r[0], r[1], clamp(x0), r[3], clamp(x0 + w), r[5]]
+        elif side == 1:
+            y0 = -off
+            rows[i] = [r[0], r[1], r[2], clamp(y0), r[4], clamp(y0 + h)]
+        elif side == 2:
+            x1 = W + off
+            rows[i] = [r[0], r[1], clamp(x1 - w), r[3], clamp(x1), r[5]]
+        else:
+            y1 = H + off
+            rows[i] = [r[0], r[1], r[2], clamp(y1 - h), r[4], clamp(y1)]
+    elif kind == "overlap":
+        j = draw(st.integers(0, n - 1))
+        r, o = rows[i], rows[j]
+        w, h = r[4] - r[2], r[5] - r[3]
+        # put row i so that it shares a cell with row j (same bin); keep it
+        # inside the bin when possible so that only the overlap clause fires
+        x0 = min(max(0, o[2] - draw(st.integers(0, max(0, w - 1)))),
+                 max(0, W - w))
+        y0 = min(max(0, o[3] - draw(st.integers(0, max(0, h - 1)))),
+                 max(0, H - h))
+        rows[i] = [r[0], o[1], clamp(x0), clamp(y0), clamp(x0 + w),
+                   clamp(y0 + h)]
+    elif kind == "to_other_bin":
+        rows[i][1] = draw(st.integers(1, max(1, k)))
+    elif kind == "to_new_bin":
+        rows[i][1] = clamp(k + 1)
+        if draw(st.booleans()):  # consistent bin count: may stay feasible
+            if type(st8["n_bins"]) is int:
+                st8["n_bins"] = k + 1
+        if draw(st.booleans()):
+            r = rows[i]
+            rows[i] = [r[0], r[1], 0, 0, r[4] - r[2], r[5] - r[3]]
+    elif kind == "bin_nonpositive":
+        rows[i][1] = clamp(draw(st.sampled_from([0, -1, -k, lo])))
+    elif kind == "bin_huge":
+        rows[i][1] = clamp(draw(st.sampled_from([n, n + 1, n + 2, hi])))
+        if draw(st.booleans()) and type(st8["n_bins"]) is int:
+            st8["n_bins"] = len({r[1] for r in rows})
+    elif kind == "bin_gap":
+        first = draw(st.integers(1, max(1, k)))
+        step = draw(st.sampled_from([1, 1, 2]))
+        for r in rows:
+            if r[1] >= first:
+                r[1] = clamp(r[1] + step)
+        if draw(st.booleans()) and type(st8["n_bins"]) is int:
+            st8["n_bins"] = max(r[1] for r in rows)
+    elif kind == "n_bins":
+        st8["n_bins"] = draw(st.sampled_from([k - 1, k + 1, 0, -1, n, n + 1]))
+    elif kind == "n_bins_type":
+        st8["n_bins"] = draw(st.sampled_from(
+            [float(k), None, str(k), [k], {"np": "int64", "v": k}]))
+    elif kind == "dtype":
+        st8["dtype"] = draw(st.sampled_from(
+            ["int8", "int16", "int32", "int64", "uint8", "uint64",
+             "float64"]))
+    elif kind == "shape":
+        how = draw(st.sampled_from(["drop_row", "add_row", "drop_col",
+                                    "add_col", "flat", "empty", "3d"]))
+        if how == "drop_row":
+            del rows[i]
+        elif how == "add_row":
+            rows.append(list(rows[i]))
+        elif how == "drop_col":
+            st8["rows"] = [r[:5] for r in rows]
+        elif how == "add_col":
+            st8["rows"] = [r + [1] for r in rows]
+        elif how == "flat":
+            st8["rows"] = [v for r in rows for v in r]
+        elif how == "empty":
+            st8["rows"] = []
+        else:
+            st8["rows"] = [[r] for r in rows]
+    elif kind == "foreign":
+        st8["foreign"] = True
+    elif kind == "plain":
+        st8["plain"] = True
+    elif kind == "swap_rows":
+        j = draw(st.integers(0, n - 1))
+        rows[i], rows[j] = rows[j], rows[i]
+    elif kind == "turn_in_place":
+        r = rows[i]
+        w, h = r[4] - r[2], r[5] - r[3]
+        rows[i] = [r[0], r[1], r[2], r[3], clamp(r[2] + h), clamp(r[3] + w)]
+    else:
+        raise ValueError(kind)
+
+
+@st.composite
+def feasible_packing(draw: Any, classes: tuple[str, ...] = CLASSES_ALL,
+                     guillotine_share: int = 4, **kw: Any) -> dict:
+    """{"inst", "rows", "origin"}: a feasible packing of either kind - the
+    layout the documented decoding rule yields (origin ``model1``/``model2``),
+    optionally re-arranged, the one-item-per-bin layout, or a guillotine
+    layout (rows unsorted, bins mirrored)."""
+    from vf import oracle_bp
+    if draw(st.integers(0, 9)) < guillotine_share:
+        g = draw(guillotine(max_bins=kw.get("max_bins", 4)))
+        inst = {"cls": "guillotine", "W": g["W"], "H": g["H"],
+                "items": g["items"]}
+        rows, origin = [list(r) for r in g["rows"]], "guillotine"
+    else:
+        inst = draw(instances(classes=classes,
+                              max_items=kw.get("max_items", 14),
+                              max_types=kw.get("max_types", 6)))
+        mode = draw(st.integers(0, 9))
+        if mode == 0:
+            rows, origin = own_bin_rows(inst), "own_bin"
+        else:
+            enc = draw(st.sampled_from([1, 2]))
+            rows, _k, _s = oracle_bp.model_decode(
+                inst["W"], inst["H"], inst["items"],
+                draw(signed_perm(inst)), enc)
+            origin = f"model{enc}"
+    if draw(st.integers(0, 2)) == 0:
+        v = draw(layout_variant(rows))
+        if v["how"] != "copy":
+            rows, origin = v["rows"], origin + "+" + v["how"]
+    return {"inst": inst, "rows": rows, "origin": origin}
+
+
+@st.composite
+def validation_case(draw: Any, mutate: bool = True, **kw: Any) -> dict:
+    """C04: {"inst", "rows", "n_bins", "dtype", "foreign", "plain", "origin",
+    "muts"}: a feasible packing, corrupted by 1..3 catalogue entries when
+    ``mutate``. ``rows``/``n_bins`` are the *final* content handed to the
+    validator; ``muts`` only names what was applied (for the labels)."""
+    from vf import oracle_bp
+    base = draw(feasible_packing(**kw))
+    inst = base["inst"]
+    st8 = {"rows": [list(r) for r in base["rows"]],
+           "n_bins": max(r[1] for r in base["rows"]),
+           "dtype": oracle_bp.expected_dtype(inst["W"], inst["H"],
+                                             inst["items"]),
+           "foreign": False, "plain": False}
+    muts: list[str] = []
+    if mutate:
+        for _ in range(draw(st.sampled_from([1, 1, 1, 2, 3]))):
+            kind = draw(st.sampled_from(MUTATIONS))
+            _mutate(draw, inst, st8, kind)
+            muts.append(kind)
+    return {"inst": inst, "rows": st8["rows"], "n_bins": st8["n_bins"],
+            "dtype": st8["dtype"], "foreign": st8["foreign"],
+            "plain": st8["plain"], "origin": base["origin"], "muts": muts}
